@@ -694,6 +694,25 @@ func lowZeroBits(t *Term) uint {
 			}
 		}
 		return m
+	case "app":
+		if t.Name == "byte!0" {
+			z := lowZeroBits(t.Args[0])
+			if z > 8 {
+				z = 8
+			}
+			return z
+		}
+	case "mod":
+		// (t mod 2^k) keeps the low zero bits of t (at most k of them)
+		if t.Args[1].Op == "int" {
+			if k, ok := isPow2(t.Args[1].Val); ok {
+				z := lowZeroBits(t.Args[0])
+				if z > k {
+					z = k
+				}
+				return z
+			}
+		}
 	}
 	return 0
 }
